@@ -307,6 +307,41 @@ func c10Specs(thorough bool) []c10Case {
 			}
 		}
 	}
+	// boundary contents: every body part empty / one byte / only a line break, in every structure and encoding
+	for _, tiny := range [][]byte{{}, []byte("x"), []byte("\r\n")} {
+		for np := 1; np <= 2; np++ {
+			for na := 0; na <= 1; na++ {
+				for ne := 0; ne <= 1; ne++ {
+					for _, menc := range encs {
+						for which := 1; which < 1<<np; which++ {
+							n++
+							s := mb.Msg{Enc: menc}
+							pc, hc := texts[0], htmls[0]
+							if which&1 != 0 {
+								pc = tiny
+							}
+							if which&2 != 0 {
+								hc = tiny
+							}
+							s.Parts = append(s.Parts, mb.Part{Type: "text/plain", Content: pc})
+							if np == 2 {
+								s.Parts = append(s.Parts, mb.Part{Type: "text/html", Content: hc})
+							}
+							if na == 1 {
+								s.Attach = []mb.File{{Name: "a.txt", Content: bins[n%len(bins)]}}
+							}
+							if ne == 1 {
+								s.Embeds = []mb.File{{Name: "e.png", Content: bins[(n+1)%len(bins)]}}
+							}
+							sub := subjects[0]
+							s.Subject = &sub
+							cs = append(cs, c10Case{Spec: s})
+						}
+					}
+				}
+			}
+		}
+	}
 	// every file name as attachment and as embed, in every message encoding
 	for ni, nm := range names {
 		for _, menc := range encs {
@@ -347,7 +382,7 @@ func init() {
 	vf.Register(&vf.Check{
 		ID: "C10", Title: "render → parse → render preserves the message",
 		Run: func(r *vf.Run) {
-			r.SetRule("builder programs inside the parser's feature set: body text/plain with optional text/html alternative × 0..2 attachments × 0..2 embeds × message encoding {QP, base64, 8bit, 7bit} × per-part encodings × 6 text contents ('=', dots, UTF-8, long lines, LF-only, no final newline) × 4 file contents × 6 file names (blank, non-ASCII, ';', '=') × 5 subjects × 5 display names (RFC 2047, comma, 80 chars); each is rendered, the rendering is checked with the independent reader (precondition), parsed with EMLToMsgFromReader, compared with the model through the Msg getters, rendered again and compared again through the independent reader; distinct by program")
+			r.SetRule("builder programs inside the parser's feature set: body text/plain with optional text/html alternative × 0..2 attachments × 0..2 embeds × message encoding {QP, base64, 8bit, 7bit} × per-part encodings × 6 text contents ('=', dots, UTF-8, long lines, LF-only, no final newline) plus every body part empty / one byte / a bare line break in every structure × 4 file contents × 6 file names (blank, non-ASCII, ';', '=') × 5 subjects × 5 display names (RFC 2047, comma, 80 chars); each is rendered, the rendering is checked with the independent reader (precondition), parsed with EMLToMsgFromReader, compared with the model through the Msg getters, rendered again and compared again through the independent reader; distinct by program")
 			r.Assume("messages whose first rendering is already wrong are C01's business and skipped here", "the parser may choose other transfer encodings on re-rendering; contents are compared decoded (QP text modulo LF->CRLF)")
 			cases := c10Specs(r.Thorough)
 			r.Extra("programs", len(cases))
